@@ -38,8 +38,8 @@ const (
 )
 
 const (
-	c10BlockArenaSize = 48 * vlib.PageSize
-	c10StrArenaSize   = 16 * vlib.PageSize
+	c10BlockArenaSize = 96 * vlib.PageSize
+	c10StrArenaSize   = 32 * vlib.PageSize
 	c10Poison         = 0xA5
 )
 
@@ -1011,6 +1011,34 @@ func (x *c10Ctx) checkAll() {
 			x.checkRegions("VisitMemRegions", got, wantRegions, len(wantRegions))
 		}
 	})
+	// --- memory map, a visitor that keeps what it is handed: the entries are read again after the scan (a caller
+	// that remembers the largest region) and, for one of them, after a second scan started from inside the
+	// callback (a caller that checks a region against all others)
+	secs = append(secs, func() {
+		var kept []*MemoryMapEntry
+		var got, afterNested []c10GotRegion
+		nestAt := len(wantRegions) / 2
+		if x.call("VisitMemRegions(keep)", func() {
+			VisitMemRegions(func(e *MemoryMapEntry) bool {
+				kept = append(kept, e)
+				if len(kept)-1 == nestAt {
+					n := 0
+					VisitMemRegions(func(*MemoryMapEntry) bool { n++; return n < 4096 })
+					afterNested = append(afterNested, c10GotRegion{e.PhysAddress, e.Length, uint32(e.Type)})
+				}
+				return len(kept) < 4096
+			})
+			for _, e := range kept {
+				got = append(got, c10GotRegion{e.PhysAddress, e.Length, uint32(e.Type)})
+			}
+		}) {
+			x.checkRegions("VisitMemRegions(keep)", got, wantRegions, len(wantRegions))
+			if len(afterNested) == 1 && nestAt < len(wantRegions) {
+				x.checkRegions("VisitMemRegions(nested)", afterNested, wantRegions[nestAt:nestAt+1], 1)
+			}
+			c10Count(run, "regions_read_again_after_the_scan", int64(len(got)))
+		}
+	})
 	// --- memory map, visitor stops at the stopAt-th region
 	secs = append(secs, func() {
 		if stopAt <= 0 {
@@ -1223,6 +1251,11 @@ func c10RunBlock(c *vlib.Case, run *vlib.Run, blk, str *vlib.Arena, b *c10Block)
 	c.Begin(desc)
 
 	x := &c10Ctx{c: c, run: run, blk: blk, str: str, b: b, seen: map[string]bool{}}
+	if len(ref)+4096 > blk.Size || len(b.strtab)+64 > str.Size {
+		// a limit of the harness's own memory, not of the code under test: such a block is left out and counted
+		c10Count(run, "blocks_larger_than_the_harness_arena_skipped", 1)
+		return
+	}
 	for _, place := range []string{"tail", "head"} {
 		x.setPlacement(place)
 		x.checkAll()
